@@ -34,15 +34,18 @@ class Run:
         self.changed = []        # something happened since the generator blocked
         self.app_requests: Dict[int, list] = {}
         self.next_req: Dict[int, int] = {}
+        registered = set()
         for a in scenario["apps"]:
-            self.ex.init_new_application(app_id=a["app"], max_qubits=a["unit"])
+            if a["app"] not in registered:       # several entries with one app id = several subroutines of that application
+                self.ex.init_new_application(app_id=a["app"], max_qubits=a["unit"])
+                registered.add(a["app"])
             sub = parse_text_subroutine(f"# NETQASM 1.0\n# APPID {a['app']}\n" + a["text"])
             self.subs.append(sub)
             self.gens.append(self.ex.execute_subroutine(sub))
             self.state.append("ready")
             self.changed.append(True)
             self.app_requests[a["app"]] = [r for r in scenario["requests"] if r["app"] == a["app"]]
-            self.next_req[a["app"]] = 0
+            self.next_req.setdefault(a["app"], 0)
         self.stopped: set = set()
         self.stops = 0
         self.final_arrays: Dict[int, dict] = {}
@@ -84,6 +87,9 @@ class Run:
             after = self.sc["apps"][i].get("after")
             if after is not None and after not in self.stopped:
                 continue                      # this application is started by its host only after that one was closed
+            after_done = self.sc["apps"][i].get("after_done")
+            if after_done is not None and self.state[after_done] != "done":
+                continue                      # the host sends this subroutine after that one has returned
             if st == "ready" or (st == "blocked" and self.changed[i]):
                 out.append(("step", i))
         for i, st in enumerate(self.state):
